@@ -459,6 +459,31 @@ func TestWorker(t *testing.T) {
 		_ = raceChoices
 		return raceRep, fmt.Sprint(raceChoices), e.Violation
 	}
+	if spec.Property == "C20" || spec.Property == "C19" {
+		e.Opts.DelayBound = false
+		if spec.Replay != nil {
+			var rp struct {
+				C20     C20Cell `json:"c20"`
+				Choices []int   `json:"choices"`
+			}
+			_ = json.Unmarshal(spec.Replay, &rp)
+			r := &c20run{cell: rp.C20}
+			e.Scenario = r.scenario
+			e.Opts.Bound = rp.C20.Bound
+			res := e.RunOne(rp.Choices, -1, nil)
+			fmt.Printf("cell %s\nend=%s\n", rp.C20.Name(), res.End)
+			for i, g := range r.calls {
+				fmt.Printf("  call %d: %s %s md=%v deadline=%v\n", i, g.Method, g.JSON, g.MD, g.Deadline)
+			}
+			fmt.Printf("  samples: %v\n", r.samples)
+			if res.Err != nil {
+				out.Violate(spec.Property+"|replay", res.Err.Error(), rp)
+			}
+			return
+		}
+		runC20(t, spec, out, e)
+		return
+	}
 	if spec.Replay != nil {
 		var rp struct {
 			Cell    Cell  `json:"cell"`
